@@ -17,14 +17,18 @@ PROPS = ["StaleFailsAndChangesNothing", "VersionIncrements", "NoResurrection"]
 def main(chk):
     rng = random.Random(chk.seed)
     if chk.quick:
-        plans = [(dict(Sessions={1, 2}, Keys={1}, MaxVals=3, MaxOps=4, MaxDepth=8), "counter"),
-                 (dict(Sessions={1, 2}, Keys={1, 2}, MaxVals=2, MaxOps=3, MaxDepth=6), "counter"),
-                 (dict(Sessions={1, 2, 3}, Keys={1}, MaxVals=3, MaxOps=2, MaxDepth=6), "custom")]
+        plans = [(dict(Sessions={1, 2}, Keys={1}, MaxVals=3, MaxOps=4, MaxDepth=8, Skew=0), "counter"),
+                 (dict(Sessions={1, 2}, Keys={1, 2}, MaxVals=2, MaxOps=3, MaxDepth=6, Skew=0), "counter"),
+                 # one session flushing two rows that carry different versions (multi-row UPDATE paths), then reusing the objects
+                 (dict(Sessions={1}, Keys={1, 2}, MaxVals=4, MaxOps=9, MaxDepth=9, Skew=2), "counter"),
+                 (dict(Sessions={1, 2, 3}, Keys={1}, MaxVals=3, MaxOps=2, MaxDepth=6, Skew=0), "custom")]
     else:
-        plans = [(dict(Sessions={1, 2}, Keys={1}, MaxVals=4, MaxOps=5, MaxDepth=10), "counter"),
-                 (dict(Sessions={1, 2}, Keys={1, 2}, MaxVals=3, MaxOps=4, MaxDepth=8), "counter"),
-                 (dict(Sessions={1, 2, 3}, Keys={1}, MaxVals=3, MaxOps=3, MaxDepth=9), "custom"),
-                 (dict(Sessions={1, 2}, Keys={1}, MaxVals=3, MaxOps=4, MaxDepth=8), "custom")]
+        plans = [(dict(Sessions={1, 2}, Keys={1}, MaxVals=4, MaxOps=5, MaxDepth=10, Skew=0), "counter"),
+                 (dict(Sessions={1, 2}, Keys={1, 2}, MaxVals=3, MaxOps=4, MaxDepth=8, Skew=0), "counter"),
+                 (dict(Sessions={1, 2}, Keys={1, 2}, MaxVals=4, MaxOps=5, MaxDepth=9, Skew=2), "counter"),
+                 (dict(Sessions={1}, Keys={1, 2}, MaxVals=5, MaxOps=11, MaxDepth=11, Skew=3), "custom"),
+                 (dict(Sessions={1, 2, 3}, Keys={1}, MaxVals=3, MaxOps=3, MaxDepth=9, Skew=0), "custom"),
+                 (dict(Sessions={1, 2}, Keys={1}, MaxVals=3, MaxOps=4, MaxDepth=8, Skew=1), "custom")]
     states = trans = nwalks = steps_total = nontriv = 0
     samples, runs, cov = [], [], {}
     for consts, gen in plans:
